@@ -675,6 +675,15 @@ func removeWithoutStepBack(body *ast.BlockStmt) []ast.Node {
 				if dec, ok := later.(*ast.IncDecStmt); ok && dec.Tok.String() == "--" && identName(dec.X) == i {
 					stepped = true
 				}
+				// the loop is left right after the removal (break / return): nothing is skipped
+				switch l := later.(type) {
+				case *ast.ReturnStmt:
+					stepped = true
+				case *ast.BranchStmt:
+					if l.Tok.String() == "break" || l.Tok.String() == "goto" {
+						stepped = true
+					}
+				}
 			}
 			if !stepped {
 				out = append(out, as)
